@@ -30,6 +30,12 @@ import (
 //                3 truncated, 4 issuer's signature over another amount
 //   rep  [client, sender, id]     re-deliver the cheque built by chq op `id` (no-op if that op has not run)
 //   barrier | restart             restart = new Service + Init over the same store
+//   snap                          (separator) back up the state store
+//   restore [cashmask, k]         (separator) data loss: on chain the node has cashed the highest
+//                                 cheque it ever accepted from every issuer in cashmask; then the node
+//                                 stops, its state store is replaced by backup k (0 = taken right after
+//                                 set-up, i.e. all cheque records lost) and it starts again (Init reads
+//                                 the chain totals, which may now be AHEAD of the local cheque records)
 
 type c30Meta struct {
 	issuer int // index into issuers; n = foreign
@@ -72,6 +78,8 @@ func c30Gen(rng *rand.Rand, tier string) *gosim.Plan {
 	replay := en("replay", 70)
 	restart := en("restart", 40)
 	foreign := en("foreign", 30)
+	dataloss := en("dataloss", 35)
+	snaps := 0
 
 	cursor := make([]int64, n+1)
 	built := 0
@@ -132,9 +140,23 @@ func c30Gen(rng *rand.Rand, tier string) *gosim.Plan {
 			senders = append(senders, sender)
 			built++
 		}
-		if restart && rng.Intn(100) < 30 {
+		x := rng.Intn(100)
+		switch {
+		case dataloss && x < 30:
+			mask := int64(rng.Intn(1 << uint(n)))
+			if rng.Intn(100) < 60 {
+				mask = int64(1<<uint(n)) - 1
+			}
+			p.Ops = append(p.Ops, gosim.Op{K: "restore", A: []int64{mask, int64(rng.Intn(snaps + 1))}})
+			if ph == nPhase-1 {
+				nPhase++ // cheques must follow the data loss
+			}
+		case dataloss && x < 50:
+			p.Ops = append(p.Ops, gosim.Op{K: "snap"})
+			snaps++
+		case restart && x < 65:
 			p.Ops = append(p.Ops, gosim.Op{K: "restart"})
-		} else {
+		default:
 			p.Ops = append(p.Ops, gosim.Op{K: "barrier"})
 		}
 	}
@@ -292,16 +314,42 @@ func c30Exec(r *gosim.Run) {
 		}
 	}
 
-	best := map[int]*c30Meta{} // highest accepted per issuer, up to the last finished phase
+	// Model. An "epoch" is the time between two data losses (restore ops). Within an
+	// epoch the store's last received cheque of an issuer starts at base[i] (what the
+	// restored backup held) and follows the accepted cheques (best[i]). high[i] is the
+	// highest cumulative payout ever accepted from issuer i in the whole run.
+	best := map[int]*c30Meta{}
+	base := map[int]*c30Meta{}
+	high := map[int]int64{}
+	exact := map[int]bool{} // the node's credit for issuer i must EQUAL high[i] (else only <=)
+	for i := 0; i <= n; i++ {
+		exact[i] = true
+	}
+	epochDel, epochCredit := 0, 0
+	type c30Snap struct {
+		data map[string][]byte
+		best map[int]*c30Meta
+	}
+	copyBest := func(m map[int]*c30Meta) map[int]*c30Meta {
+		o := map[int]*c30Meta{}
+		for k, v := range m {
+			o[k] = v
+		}
+		return o
+	}
+	snaps := []c30Snap{{env.store.snapshot(), map[int]*c30Meta{}}}
 
 	checkPhase := func(phase int) {
 		mu.Lock()
-		ds := append([]*c30Delivery(nil), dels...)
+		ds := append([]*c30Delivery(nil), dels[epochDel:]...)
 		mu.Unlock()
 		// monotonicity with the real-time order of deliveries
 		for _, a := range ds {
 			if !a.accepted {
 				continue
+			}
+			if b := base[a.meta.issuer]; b != nil && a.meta.amount <= b.amount {
+				r.Violate("accepted-not-increasing", "issuer %d: cheque %d accepted although the store holds cheque %d", a.meta.issuer, a.meta.amount, b.amount)
 			}
 			for _, b := range ds {
 				if b == a || !b.accepted || a.meta.issuer != b.meta.issuer {
@@ -317,13 +365,23 @@ func c30Exec(r *gosim.Run) {
 			}
 		}
 		for _, d := range ds {
-			if d.accepted && (best[d.meta.issuer] == nil || d.meta.amount > best[d.meta.issuer].amount) {
-				best[d.meta.issuer] = d.meta
+			if !d.accepted {
+				continue
+			}
+			i := d.meta.issuer
+			if best[i] == nil || d.meta.amount > best[i].amount {
+				best[i] = d.meta
+			}
+			if d.meta.amount > high[i] {
+				high[i] = d.meta.amount
+			}
+			if best[i].amount == high[i] {
+				exact[i] = true // the store is level with everything ever accepted again
 			}
 		}
-		// credited sum per issuer == highest accepted cumulative payout
+		// credited sum per issuer == highest accepted cumulative payout (on top of what the store held)
 		env.mu.Lock()
-		credits := append([]c30Credit(nil), env.credits...)
+		credits := append([]c30Credit(nil), env.credits[epochCredit:]...)
 		env.mu.Unlock()
 		sum := map[common.Address]*big.Int{}
 		for _, c := range credits {
@@ -338,12 +396,15 @@ func c30Exec(r *gosim.Run) {
 			if best[i] != nil {
 				want = big.NewInt(best[i].amount)
 			}
+			if base[i] != nil {
+				want.Sub(want, big.NewInt(base[i].amount))
+			}
 			got := sum[addr]
 			if got == nil {
 				got = big.NewInt(0)
 			}
 			if got.Cmp(want) != 0 {
-				r.Violate("credited-sum", "issuer %d: total credited by the cheque store is %s, highest accepted cumulative payout is %s", i, got, want)
+				r.Violate("credited-sum", "issuer %d: total credited by the cheque store since the last data loss is %s, highest accepted cumulative payout minus the restored one is %s", i, got, want)
 			}
 		}
 		// what the node reports
@@ -377,18 +438,22 @@ func c30Exec(r *gosim.Run) {
 			if got == nil {
 				got = big.NewInt(0)
 			}
-			w := int64(0)
-			if want != nil {
-				w = want.amount
+			// never more than the highest cumulative payout ever accepted; exactly that
+			// unless a data loss left the local records behind and no newer cheque came yet
+			if got.Cmp(big.NewInt(high[i])) > 0 || (exact[i] && got.Cmp(big.NewInt(high[i])) != 0) {
+				if !exact[i] {
+					r.Count("probe_overcredit_checked_after_dataloss")
+				}
+				r.Violate("received-settlements", "peer %d: node reports received settlements %s, highest accepted cumulative payout is %d", i, got, high[i])
 			}
-			if got.Cmp(big.NewInt(w)) != 0 {
-				r.Violate("received-settlements", "peer %d: node reports received settlements %s, highest accepted cumulative payout is %d", i, got, w)
+			if epochDel > 0 && exact[i] && high[i] > 0 {
+				r.Count("probe_credit_checked_after_dataloss")
 			}
 		}
 		_ = phase
 	}
 
-	c30Phases(r, r.Plan.Ops, func(o gosim.Op) bool { return o.K == "restart" }, func(phase int, o gosim.Op) {
+	c30Phases(r, r.Plan.Ops, func(o gosim.Op) bool { return o.K == "restart" || o.K == "snap" || o.K == "restore" }, func(phase int, o gosim.Op) {
 		switch o.K {
 		case "chq":
 			m := build(o)
@@ -408,7 +473,11 @@ func c30Exec(r *gosim.Run) {
 		}
 	}, func(phase int, s *gosim.Op) {
 		checkPhase(phase)
-		if s != nil && s.K == "restart" {
+		if s == nil {
+			return
+		}
+		switch s.K {
+		case "restart":
 			node.stop()
 			nn, err := env.start()
 			if err != nil {
@@ -417,6 +486,42 @@ func c30Exec(r *gosim.Run) {
 			node = nn
 			r.Count("probe_restarted")
 			r.Logf("restart")
+			checkPhase(phase)
+		case "snap":
+			snaps = append(snaps, c30Snap{env.store.snapshot(), copyBest(best)})
+			r.Logf("snap #%d", len(snaps)-1)
+		case "restore":
+			// before it lost its data the node cashed, on chain, the best cheque it ever held
+			for i := 0; i < n; i++ {
+				if s.Arg(0)&(1<<uint(i)) != 0 && high[i] > 0 {
+					paid := env.chain.cash(env.peers[i].addr, env.self.addr, big.NewInt(high[i]))
+					r.Logf("chain: node cashed cheque %d of issuer %d (paid %s)", high[i], i, paid)
+				}
+			}
+			k := int(s.Arg(1))
+			if k < 0 {
+				k = -k
+			}
+			sn := snaps[k%len(snaps)]
+			node.stop()
+			env.store.restore(sn.data)
+			nn, err := env.start()
+			if err != nil {
+				r.Violate("init-error", "Init after restoring the state store failed: %v", err)
+			}
+			node = nn
+			best, base = copyBest(sn.best), copyBest(sn.best)
+			mu.Lock()
+			epochDel = len(dels)
+			mu.Unlock()
+			env.mu.Lock()
+			epochCredit = len(env.credits)
+			env.mu.Unlock()
+			for i := 0; i <= n; i++ {
+				exact[i] = false
+			}
+			r.Count("probe_dataloss")
+			r.Logf("restore backup #%d cashmask=%d", k%len(snaps), s.Arg(0))
 			checkPhase(phase)
 		}
 	})
